@@ -9,6 +9,7 @@ CONSTANTS
   CopyFix = FALSE
   Gen = FALSE
   LateFlag = FALSE
+  NoRebind = FALSE
 SPECIFICATION Spec
 INVARIANT RuleOK
 CHECK_DEADLOCK FALSE
